@@ -2,7 +2,8 @@
    Only statements here; the model is Model/Keys.v, the proofs are in Proofs/Keys*.v.
    A key is the list of its dot-separated components. *)
 From Coq Require Import ZArith List Bool String.
-From PyxelV Require Import Model.Keys Proofs.Keys Proofs.KeysLit.
+From PyxelV Require Import Model.Keys Model.KeysWorld Proofs.Keys Proofs.KeysLit Proofs.KeysSeq Proofs.KeysWorld.
+From PyxelGen Require Import Gen_C08.
 Import ListNotations.
 Open Scope string_scope.
 Open Scope list_scope.
@@ -40,117 +41,143 @@ Definition k_values := ["pipeline"; "photon_collection"; "illumination"; "argume
 
 (* ===================================================================================== set then get *)
 
-Definition C08_set_get_full : Prop :=
+(* Reading back returns the assigned value — for every tree, key and value (Processor.get looks items of dicts and
+   declared arguments up first, as has() and set() do: repaired C08-get-dict, C08-get-shadowed). *)
+Theorem C08_set_get :
   forall t k v t', set t k v = Ok t' -> getv t' k = Ok v.
-
-(* Processor.get is operator.attrgetter: an item of a dict-valued argument, which has()/set() accept, cannot be read *)
-Theorem C08_set_get_refuted : ~ C08_set_get_full.
-Proof.
-  intros H. specialize (H (ex_proc true) k_dict (VInt 7) _ eq_refl). vm_compute in H. discriminate.
-Qed.
-Print Assumptions C08_set_get_refuted.
-
-(* ... and an argument called like a method of the Arguments class reads back as the method *)
-Theorem C08_set_get_refuted_shadowed_argument :
-  exists t k v t', set t k v = Ok t' /\ getv t' k = Ok (VOpaque "method").
-Proof. exists (ex_proc true), k_values, (VInt 7). eexists. split; vm_compute; reflexivity. Qed.
-Print Assumptions C08_set_get_refuted_shadowed_argument.
-
-(* strongest true restriction: wherever the walk of _get_obj_att and the walk of attrgetter agree
-   (no dict crossed or addressed, argument name not hidden by a class attribute) *)
-Theorem C08_set_get_partial :
-  forall t k v t', set t k v = Ok t' -> attr_path t k = true -> getv t' k = Ok v.
-Proof. exact set_get_partial. Qed.
-Print Assumptions C08_set_get_partial.
+Proof. exact set_get. Qed.
+Print Assumptions C08_set_get.
 
 Example C08_set_get_nonvacuous :
-  attr_path (ex_proc true) k_level = true /\ (exists t', set (ex_proc true) k_level (VInt 9) = Ok t') /\
-  attr_path (ex_proc true) k_row = true /\ (exists t', set (ex_proc true) k_row (VInt 9) = Ok t') /\
-  attr_path (ex_proc true) k_rwo = true /\ (exists t', set (ex_proc true) k_rwo (VInt 9) = Ok t').
-Proof. repeat split; try (eexists; vm_compute; reflexivity). Qed.
+  (exists t', set (ex_proc true) k_level (VInt 9) = Ok t') /\
+  (exists t', set (ex_proc true) k_row (VInt 9) = Ok t') /\
+  (* an item of a dict-valued argument, and an argument called like a method of Mapping *)
+  (exists t', set (ex_proc true) k_dict (VInt 9) = Ok t' /\ getv t' k_dict = Ok (VInt 9)) /\
+  (exists t', set (ex_proc true) k_values (VInt 9) = Ok t' /\ getv t' k_values = Ok (VInt 9)).
+Proof. repeat split; try (eexists; vm_compute; reflexivity); eexists; split; vm_compute; reflexivity. Qed.
 
 (* ===================================================================================== frame *)
 
-Definition C08_frame_full : Prop :=
+(* An accepted assignment addressed an existing, settable setting (an item of a dict, a declared argument, a property
+   with a setter, an instance attribute holding a value), and every key that does not extend the assigned key reads
+   exactly as before: same value, same object or same error — nothing else changes, appears or disappears
+   (repaired C08-F7a/b/c: no attribute is created, no method shadowed, no object replaced).  Keys BELOW the assigned
+   key are exempt because replacing a dict-valued argument by a scalar legitimately removes its items. *)
+Theorem C08_frame :
   forall t k v t', set t k v = Ok t' ->
-    shape t' = shape t /\ forall k', k' <> k -> getv t' k' = getv t k'.
+    targets t k = true /\ forall k', is_prefix k k' = false -> getv t' k' = getv t k'.
+Proof. exact frame. Qed.
+Print Assumptions C08_frame.
 
-(* F7: a misspelt last component on an object with an open __dict__ creates a new attribute *)
-Theorem C08_frame_refuted : ~ C08_frame_full.
-Proof.
-  intros H. destruct (H (ex_proc true) k_rwo (VInt 7) _ eq_refl) as [S _]. vm_compute in S. discriminate.
-Qed.
-Print Assumptions C08_frame_refuted.
-
-Theorem C08_frame_refuted_enabld : exists t' , set (ex_proc true) k_enabld (VBool false) = Ok t' /\ shape t' <> shape (ex_proc true).
-Proof. eexists. split; [vm_compute; reflexivity|]. vm_compute. discriminate. Qed.
-Print Assumptions C08_frame_refuted_enabld.
-
-(* a truncated key that names an object (has() = True) replaces the object: every setting below disappears *)
-Theorem C08_frame_refuted_truncated :
-  exists t', set (ex_proc true) ["detector"] (VInt 5) = Ok t' /\ has (ex_proc true) ["detector"] = Ok true /\
-             getv (ex_proc true) k_row = Ok (VInt 3) /\ getv t' k_row = Raise AttributeError.
-Proof. eexists. repeat split; vm_compute; reflexivity. Qed.
-Print Assumptions C08_frame_refuted_truncated.
-
-(* strongest true restriction: the key ends on an existing setting (a leaf held by a property with setter,
-   an instance attribute, a dict item or a declared argument) *)
-Theorem C08_frame_partial :
+(* when the setting held a plain value nothing at all changes but that value: the shape of the tree is the same and
+   EVERY other key reads as before *)
+Theorem C08_frame_value_setting :
   forall t k v t', set t k v = Ok t' -> targets_setting t k = true ->
     shape t' = shape t /\ forall k', k' <> k -> getv t' k' = getv t k'.
-Proof. exact frame_partial. Qed.
-Print Assumptions C08_frame_partial.
+Proof. exact frame_value. Qed.
+Print Assumptions C08_frame_value_setting.
 
-Theorem C08_setting_is_confirmed : forall t k, targets_setting t k = true -> has t k = Ok true.
-Proof. exact targets_setting_has. Qed.
+Theorem C08_setting_is_confirmed : forall t k, targets t k = true -> has t k = Ok true.
+Proof. exact targets_has. Qed.
 Print Assumptions C08_setting_is_confirmed.
 
 Example C08_frame_nonvacuous :
   targets_setting (ex_proc true) k_level = true /\ targets_setting (ex_proc true) k_row = true /\
   targets_setting (ex_proc true) k_dict = true /\ targets_setting (ex_proc true) k_values = true /\
   targets_setting (ex_proc true) ["pipeline"; "photon_collection"; "illumination"; "enabled"] = true /\
-  targets_setting (ex_proc true) k_rwo = false /\ targets_setting (ex_proc true) ["detector"] = false /\
+  targets (ex_proc true) ["pipeline"; "photon_collection"; "illumination"; "arguments"; "d"] = true /\
+  targets (ex_proc true) k_rwo = false /\ targets (ex_proc true) ["detector"] = false /\
+  targets (ex_proc true) ["detector"; "geometry"; "to_dict"] = false /\
+  (* the former defects are refused now *)
+  set (ex_proc true) k_rwo (VInt 7) = Raise AttributeError /\
+  set (ex_proc true) k_enabld (VBool false) = Raise AttributeError /\
+  set (ex_proc true) ["detector"] (VInt 5) = Raise AttributeError /\
+  set (ex_proc true) ["detector"; "geometry"; "to_dict"] (VInt 5) = Raise AttributeError /\
+  set (ex_proc true) ["pipeline"; "photon_collection"; "illumination"] (VInt 5) = Raise AttributeError /\
   (exists t', set (ex_proc true) k_level (VInt 9) = Ok t' /\ getv t' k_row = Ok (VInt 3)).
 Proof. repeat split; try (eexists; split; vm_compute; reflexivity). Qed.
 
+(* ===================================================================================== derived processors *)
+
+(* Sweeps, calibration and Processor.replace assign on a COPY of the processor they are given.  Under the copy policy
+   the source states today (src_copy_policy / src_copy_sites are regenerated from Processor.__deepcopy__,
+   ModelGroup.__deepcopy__, Processor.replace, create_new_processor, build_processors and update_processor on every
+   run) no object is shared between a processor and its copies, and whatever is assigned through whatever key on a
+   copy — successfully or not — the processor it was derived from keeps its whole settings tree: every setting, every
+   disabled model, every nested argument, every detector sub-object.  The copy itself is a processor with the same
+   tree, so C08_frame, C08_set_get & co. describe what happens to it. *)
+Theorem C08_derived_isolation :
+  forall via t k raw,
+    alias_paths src_copy_policy (site_mode src_copy_sites via) t = [] /\
+    orig_after src_copy_policy (site_mode src_copy_sites via) t k raw = t.
+Proof. intros. apply derived_isolated; vm_compute; reflexivity. Qed.
+Print Assumptions C08_derived_isolation.
+
+(* what is at stake: as soon as a copy shares the object in which the walk of the key ends, the source sees the assignment *)
+Theorem C08_shared_object_leaks :
+  forall pol site t k raw t',
+    shares_landing (alias_paths pol site t) k = true -> pset t k raw = Ok t' -> orig_after pol site t k raw = t'.
+Proof. exact shared_landing_leaks. Qed.
+Print Assumptions C08_shared_object_leaks.
+
+(* non-vacuity: a policy that hands the models of a group over as they are shares exactly the models, and an
+   assignment on the copy's `enabled` flag then flips the source's flag; the policy of the source shares nothing *)
+Example C08_derived_nonvacuous :
+  let leaky := mkCPolicy [("detector", Deep); ("pipeline", Deep)] [("models", Alias)] in
+  alias_paths leaky Deep (ex_proc false) = [["pipeline"; "photon_collection"; "illumination"]] /\
+  getv (orig_after leaky Deep (ex_proc false) ["pipeline"; "photon_collection"; "illumination"; "enabled"] (VBool true))
+       ["pipeline"; "photon_collection"; "illumination"; "enabled"] = Ok (VBool true) /\
+  orig_after leaky Deep (ex_proc false) k_row (VInt 9) = ex_proc false /\
+  alias_paths src_copy_policy (site_mode src_copy_sites "replace") (ex_proc false) = [] /\
+  (exists t', pset (ex_proc false) ["pipeline"; "photon_collection"; "illumination"; "enabled"] (VBool true) = Ok t' /\ t' <> ex_proc false).
+Proof. repeat split; try (vm_compute; reflexivity). eexists; split; [vm_compute; reflexivity|]. vm_compute. discriminate. Qed.
+
 (* ===================================================================================== unresolved keys *)
 
-Definition C08_unresolved_rejected_full : Prop :=
+(* a key that has() does not confirm is refused by set(), whatever the value (repaired C08-F7a) *)
+Theorem C08_unresolved_rejected :
   forall t k v, has t k <> Ok true -> exists e, set t k v = Raise e.
-
-Theorem C08_unresolved_rejected_refuted : ~ C08_unresolved_rejected_full.
-Proof.
-  intros H. destruct (H (ex_proc true) k_rwo (VInt 7)) as [e He]; [vm_compute; discriminate|].
-  vm_compute in He. discriminate.
-Qed.
-Print Assumptions C08_unresolved_rejected_refuted.
-
-(* strongest true restriction: unless the walk ends on an object with an open __dict__ ... *)
-Theorem C08_unresolved_rejected_partial :
-  forall t k v, has t k <> Ok true -> lands_open t k = false -> exists e, set t k v = Raise e.
-Proof. exact unresolved_rejected_partial. Qed.
-Print Assumptions C08_unresolved_rejected_partial.
-
-(* ... and there the defect always happens: the unconfirmed name is accepted and the shape of the tree changes *)
-Theorem C08_unresolved_on_open_object_creates :
-  forall t k v, has t k = Ok false -> lands_open t k = true ->
-    exists t', set t k v = Ok t' /\ shape t' <> shape t.
-Proof. exact unresolved_on_open_creates. Qed.
-Print Assumptions C08_unresolved_on_open_object_creates.
+Proof. exact unresolved_rejected. Qed.
+Print Assumptions C08_unresolved_rejected.
 
 Example C08_unresolved_nonvacuous :
   (* an undeclared argument: refused (Arguments refuses unknown keys) *)
   has (ex_proc true) ["pipeline"; "photon_collection"; "illumination"; "arguments"; "nope"] = Ok false /\
-  lands_open (ex_proc true) ["pipeline"; "photon_collection"; "illumination"; "arguments"; "nope"] = false /\
   (* an unknown model: KeyError from has and from set *)
   has (ex_proc true) ["pipeline"; "photon_collection"; "nomodel"; "arguments"; "x"] = Raise KeyError /\
   set (ex_proc true) ["pipeline"; "photon_collection"; "nomodel"; "arguments"; "x"] (VInt 1) = Raise KeyError /\
   (* absent group *)
   has (ex_proc true) ["pipeline"; "phasing"; "m"; "enabled"] = Ok false /\
-  lands_open (ex_proc true) ["pipeline"; "phasing"; "m"; "enabled"] = false /\
-  (* the defect *)
-  has (ex_proc true) k_rwo = Ok false /\ lands_open (ex_proc true) k_rwo = true.
+  (* a misspelt field / flag on an object with an open __dict__ *)
+  has (ex_proc true) k_rwo = Ok false /\ has (ex_proc true) k_enabld = Ok false.
 Proof. repeat split; vm_compute; reflexivity. Qed.
+
+(* ===================================================================================== setter guards *)
+
+(* The range guards of the property setters of Geometry / Characteristics / Environment / APDCharacteristics are
+   regenerated from the source on every run (src_setter_guards); the settings trees of the correspondence take their
+   guards from this table.  Every guarded setting still accepts some value (a guard that refuses everything would make
+   the key unassignable), and an assignment that a guarded setter accepts passed its guard. *)
+Theorem C08_setter_guards_satisfiable :
+  forall c f g, In (c, f, g) src_setter_guards -> exists v, guard_check g v = None.
+Proof. apply guards_inhabited_all. vm_compute. reflexivity. Qed.
+Print Assumptions C08_setter_guards_satisfiable.
+
+Theorem C08_guard_respected :
+  forall k ms att g c v t',
+    (k = NObj true \/ k = NObj false \/ k = NGroup) ->
+    find is_prop att ms = Some (KProp true g, c) -> set (Node k ms) [att] v = Ok t' -> guard_check g v = None.
+Proof. intros k ms att g c v t' Hk Hf Hs. eapply assign_respects_guard; eauto. Qed.
+Print Assumptions C08_guard_respected.
+(* (stated on a local table: the values of the regenerated table belong to the source, not to this file) *)
+Example C08_guards_nonvacuous :
+  let tbl := [("Environment", "temperature", GRange 0 1000 true false); ("Geometry", "row", GAbove 0 true)] in
+  guard_check (guard_of tbl "Environment" "temperature") (VInt 0) = Some ValueError /\
+  guard_check (guard_of tbl "Environment" "temperature") (VDec 5 (-1)) = None /\
+  guard_check (guard_of tbl "Environment" "temperature") (VInt 1000) = None /\
+  guard_check (guard_of tbl "Geometry" "row") (VStr "x") = Some TypeError /\
+  guard_of tbl "Geometry" "nope" = GAny /\ src_setter_guards <> [].
+Proof. repeat split; try (vm_compute; reflexivity). vm_compute. discriminate. Qed.
 
 (* ===================================================================================== validate_steps *)
 
@@ -159,8 +186,8 @@ Theorem C08_undeclared_or_disabled_is_error :
   forall t keys key,
     In key keys ->
     (has t (split_dots key) <> Ok true \/
-     (contains "pipeline." key = true /\
-      forall v, getv t (split_dots (model_prefix key ++ ".enabled")%string) = Ok v -> truthy v = false)) ->
+     (is_pipeline_key (split_dots key) = true /\
+      forall v, getv t (model_flag_key (split_dots key)) = Ok v -> truthy v = false)) ->
     exists e, validate_steps t keys = Some e.
 Proof. exact undeclared_or_disabled_is_error. Qed.
 Print Assumptions C08_undeclared_or_disabled_is_error.
@@ -169,48 +196,73 @@ Theorem C08_validated_keys_declared_and_enabled :
   forall t keys, validate_steps t keys = None ->
     forall key, In key keys ->
       has t (split_dots key) = Ok true /\
-      (contains "pipeline." key = true ->
-       exists v, getv t (split_dots (model_prefix key ++ ".enabled")%string) = Ok v /\ truthy v = true).
+      (is_pipeline_key (split_dots key) = true ->
+       exists v, getv t (model_flag_key (split_dots key)) = Ok v /\ truthy v = true).
 Proof. exact validated_keys_declared_and_enabled. Qed.
 Print Assumptions C08_validated_keys_declared_and_enabled.
+
+(* every sweep key the specification admits — a declared setting or argument, of an ENABLED model if it is a pipeline
+   key, the enabled flag itself included — is accepted (repaired C08-enabled-sweep) *)
+Theorem C08_enabled_key_accepted :
+  forall t key, spec_step_ok t key = true -> validate_steps t [key] = None.
+Proof. exact admitted_key_accepted. Qed.
+Print Assumptions C08_enabled_key_accepted.
 
 Example C08_validate_nonvacuous :
   validate_steps (ex_proc true) ["detector.geometry.row"; "pipeline.photon_collection.illumination.arguments.level"] = None /\
   validate_steps (ex_proc false) ["detector.geometry.row"; "pipeline.photon_collection.illumination.arguments.level"] = Some ValueError /\
   validate_steps (ex_proc true) ["detector.geometry.row"; "pipeline.photon_collection.illumination.arguments.nope"] = Some KeyError /\
   validate_steps (ex_proc true) ["detector.geometry.rwo"] = Some KeyError /\
-  model_prefix "pipeline.photon_collection.illumination.arguments.level" = "pipeline.photon_collection.illumination".
+  spec_step_ok (ex_proc true) "pipeline.photon_collection.illumination.enabled" = true /\
+  validate_steps (ex_proc true) ["pipeline.photon_collection.illumination.enabled"] = None /\
+  validate_steps (ex_proc false) ["pipeline.photon_collection.illumination.enabled"] = Some ValueError /\
+  model_flag_key (split_dots "pipeline.photon_collection.illumination.arguments.level") =
+    ["pipeline"; "photon_collection"; "illumination"; "enabled"].
 Proof. repeat split; vm_compute; reflexivity. Qed.
 
-(* the slicing key[:key.find(".arguments")] drops the last character of a key without ".arguments":
-   a sweep over the enabled flag itself of an ENABLED model is refused (with AttributeError) *)
-Definition C08_enabled_key_accepted_full : Prop :=
-  forall t key, spec_step_ok t key = true -> validate_steps t [key] = None.
-Theorem C08_enabled_key_accepted_refuted : ~ C08_enabled_key_accepted_full.
+(* STILL OPEN (C08-validate-nonsetting): validate_steps relies on has(), which confirms anything that exists, so a
+   swept key that names an object, a read-only property or a method is accepted; the assignment is refused later,
+   when the first derived processor is built. *)
+Definition C08_accepted_key_is_setting_full : Prop :=
+  forall t key, validate_steps t [key] = None -> spec_step_ok t key = true.
+Theorem C08_accepted_key_is_setting_refuted : ~ C08_accepted_key_is_setting_full.
 Proof.
-  intros H. specialize (H (ex_proc true) "pipeline.photon_collection.illumination.enabled" eq_refl).
-  vm_compute in H. discriminate.
+  intros H. specialize (H (ex_proc true) "detector.geometry.to_dict" eq_refl). vm_compute in H. discriminate.
 Qed.
-Print Assumptions C08_enabled_key_accepted_refuted.
+Print Assumptions C08_accepted_key_is_setting_refuted.
+
+(* strongest true restriction: what validate_steps accepts is at least confirmed by has() and belongs to an enabled
+   model — C08_validated_keys_declared_and_enabled above; and set() refuses it afterwards unless it is a setting: *)
+Theorem C08_accepted_key_is_setting_partial :
+  forall t key v t', validate_steps t [key] = None -> set t (split_dots key) v = Ok t' -> targets t (split_dots key) = true.
+Proof. intros t key v t' _ Hs. exact (proj1 (frame _ _ _ _ Hs)). Qed.
+Print Assumptions C08_accepted_key_is_setting_partial.
 
 (* ===================================================================================== literal conversion *)
 
-Definition C08_literal_roundtrip_full : Prop :=
-  forall v, eval_entry (render_lit v) = Ok (lit_val v).
+(* a scalar value rendered as the text a user writes for it — an integer, a decimal written mantissa-e-exponent, a
+   boolean, None (repaired C08-literal-none), a bare word — is converted back to exactly that value *)
+Theorem C08_literal_roundtrip :
+  forall v, lit_wf v = true -> eval_entry (render_lit v) = Ok (lit_val v).
+Proof. exact literal_roundtrip. Qed.
+Print Assumptions C08_literal_roundtrip.
 
-(* eval_entry("None") trips the assert instead of returning None *)
-Theorem C08_literal_roundtrip_refuted : ~ C08_literal_roundtrip_full.
-Proof. intros H. specialize (H LNone). vm_compute in H. discriminate. Qed.
-Print Assumptions C08_literal_roundtrip_refuted.
-
-Theorem C08_literal_roundtrip_partial :
-  forall v, lit_ok v = true -> eval_entry (render_lit v) = Ok (lit_val v).
-Proof. exact literal_roundtrip_partial. Qed.
-Print Assumptions C08_literal_roundtrip_partial.
+(* ... and so is every literal text WITH sequences: quoted strings, lists and tuples — nested to any depth — of
+   integers, decimals, booleans, None and quoted strings, written the way Python prints them ("[1, 'a', (2, True)]",
+   "(1,)", "[]"); inside a sequence a word must be quoted (a bare word there makes the whole text a string) *)
+Theorem C08_literal_roundtrip_sequences :
+  forall v, lval_wf false v = true -> eval_entry (render_lval v) = Ok (lval_val v).
+Proof. exact literal_roundtrip_seq. Qed.
+Print Assumptions C08_literal_roundtrip_sequences.
 
 Example C08_literal_nonvacuous :
-  lit_ok (LWord "foo") = true /\ lit_ok (LBool true) = true /\
-  map eval_entry ["1e3"; "007"; "-12"; "[1, 'a', (2.5, True)]"; "foo"; "'foo'"; "1.50"] =
+  lit_wf (LWord "foo") = true /\ lit_wf (LInt (-12)) = true /\ lit_wf (LDec (-25) (-2)) = true /\ lit_wf LNone = true /\
+  render_lit (LDec (-25) (-2)) = "-25e-2" /\ render_lit (LInt 1200) = "1200" /\
+  (let v := LL [LS (LInt 1); LQ (list_ascii_of_string "a b"); LT [LS (LDec 25 (-1)); LS (LBool true)]; LT [LS LNone]; LL []] in
+   lval_wf false v = true /\ render_lval v = "[1, 'a b', (25e-1, True), (None,), []]" /\
+   lval_val v = VList [VInt 1; VStr "a b"; VTuple [VDec 25 (-1); VBool true]; VTuple [VNone]; VList []]) /\
+  lval_wf false (LL [LS (LWord "abc")]) = false /\
+  map eval_entry ["1e3"; "007"; "-12"; "[1, 'a', (2.5, True)]"; "foo"; "'foo'"; "1.50"; "None"; "[1, abc]"] =
   [Ok (VDec 1 3); Ok (VStr "007"); Ok (VInt (-12)); Ok (VList [VInt 1; VStr "a"; VTuple [VDec 25 (-1); VBool true]]);
-   Ok (VStr "foo"); Ok (VStr "foo"); Ok (VDec 150 (-2))].
+   Ok (VStr "foo"); Ok (VStr "foo"); Ok (VDec 150 (-2)); Ok VNone; Ok (VStr "[1, abc]")].
 Proof. repeat split; vm_compute; reflexivity. Qed.
